@@ -140,6 +140,12 @@ func (env *SpecEnv) eval(e *Expr) *SV {
 		stale("unary %s on %s", e.Name, e.Args[0])
 	case "cond":
 		c := env.evalBool(e.Args[0])
+		if c.IsTrue() {
+			return env.eval(e.Args[1])
+		}
+		if c.IsFalse() {
+			return env.eval(e.Args[2])
+		}
 		a, b := env.eval(e.Args[1]), env.eval(e.Args[2])
 		a, b = env.unify(a, b, e)
 		return &SV{T: Ite(c, a.T, b.T), Ty: firstTy(a, b)}
@@ -684,6 +690,20 @@ func (env *SpecEnv) call(e *Expr) *SV {
 		argN(2)
 		a, b := env.eval(e.Args[0]), env.eval(e.Args[1])
 		return &SV{T: And(Eq(SArr(a.T), SArr(b.T)), Eq(SOff(a.T), SOff(b.T)), Eq(SLen(a.T), SLen(b.T)))}
+	case "deref":
+		// *p for a pointer to a non-struct value
+		argN(1)
+		a := env.eval(e.Args[0])
+		if a.Ty == nil {
+			stale("deref of untyped value in %s", e)
+		}
+		pt, isPtr := derefType(a.Ty)
+		if !isPtr {
+			stale("deref of non-pointer in %s", e)
+		}
+		srt := x.eng.SortOf(pt)
+		pl := &Place{Comp: cellComp(srt, isRefType(pt)), Elem: srt, Ref: a.T, Ty: pt}
+		return &SV{T: x.readPlace(env.heap, pl), Ty: pt}
 	case "arr":
 		argN(1)
 		a := env.eval(e.Args[0])
